@@ -364,6 +364,8 @@ def run(ck, tier):
     _acc2.run2(ck, F, 'C08')
     from . import relations as _rel
     _rel.run(ck, F, 'C08')
+    from . import guards as _grd
+    _grd.run(ck, F, 'C08')
     from . import c08x
     c08x.run(ck, F)
     from . import c08y
